@@ -648,3 +648,44 @@ Proof.
   split; [apply price_step|]. destruct o; cbn [is_slash]; try tauto. intros _.
   destruct (slash_step st a) as [H1 [H2 _]]. split; assumption.
 Qed.
+
+(* ---------- no orphan balance ---------- *)
+(* rewards as the code computes them are proportional to the balance
+   (state.go:1226-1240, 1355): a pool without balance gets none *)
+Fixpoint prop_rewards (st : mstate) (ops : list mop) : Prop :=
+  match ops with
+  | [] => True
+  | o :: r =>
+      match o with OReward a => bal (mpool st) = 0 -> a = 0 | _ => True end /\
+      prop_rewards (mnext st o) r
+  end.
+
+Definition no_orphan (st : mstate) : Prop := tsh (mpool st) = 0 -> bal (mpool st) = 0.
+
+Lemma no_orphan_step st o : wfm st -> no_orphan st ->
+  match o with OReward a => bal (mpool st) = 0 -> a = 0 | _ => True end ->
+  no_orphan (mnext st o).
+Proof.
+  intros Hw Hn Hr. unfold no_orphan in *. destruct o as [d a|d s|a|a].
+  - destruct (shares_for_stake (mpool st) a) as [m|] eqn:E.
+    + rewrite (mnext_deposit_ok _ _ _ _ E). cbn [mpool bal tsh]. intros Hz.
+      destruct (sfs_some _ _ _ E) as [[S0 ->]|[S0 _]]; lia.
+    + rewrite (mnext_deposit_err _ _ _ E). exact Hn.
+  - destruct (N.le_gt_cases s (dsh (dget d (mdel st)))) as [H1|H1];
+    [destruct (N.le_gt_cases s (tsh (mpool st))) as [H2|H2]|].
+    + rewrite (mnext_withdraw_ok _ _ _ H1 H2). cbn [mpool bal tsh]. intros Hz.
+      destruct (N.eq_dec (tsh (mpool st)) 0) as [S0|S0]; [specialize (Hn S0); lia|].
+      assert (s = tsh (mpool st)) by lia. subst s. unfold worth. rewrite (stake_all _ S0). lia.
+    + rewrite mnext_withdraw_err by lia. exact Hn.
+    + rewrite mnext_withdraw_err by lia. exact Hn.
+  - unfold mnext, mstep. cbn [fst mpool bal tsh]. intros Hz. specialize (Hn Hz). specialize (Hr Hn). lia.
+  - unfold mnext, mstep. cbn [fst mpool bal tsh]. intros Hz. specialize (Hn Hz). lia.
+Qed.
+
+Lemma no_orphan_invariant_l ops : forall st, wfm st -> no_orphan st -> prop_rewards st ops ->
+  no_orphan (mfinal st ops).
+Proof.
+  induction ops as [|o r IH]; intros st Hw Hn Hp; [exact Hn|].
+  rewrite mfinal_cons. destruct Hp as [Hr Hp]. apply IH; [apply wfm_step; exact Hw| |exact Hp].
+  apply no_orphan_step; assumption.
+Qed.
